@@ -17,6 +17,7 @@ from ..xfer import FileConn, make_source, setup_pair, state_name, wait_until
 
 ID = 'C17'
 LEVEL = 'exploration'
+QUICK_SCALE = 2.5      # the quick tier was enlarged by this factor after MIN_OBS['quick'] was measured
 RULE = ("kind=lists (batches of 25): a list of 0..8 Transfer objects, each driven into a state of every state x "
         "direction through the legal state methods and then given seeded fields (local_path None/ASCII/non-ASCII, "
         "filesize None/0/n, bytes 0/<size/==size/>size, fail/abort reasons incl. None with ABORTED, place in queue, "
@@ -117,8 +118,8 @@ def states_for(direction: str) -> list[str]:
 
 
 def cases(tier: str, seed: int) -> list[dict]:
-    n_lists = 2000 if tier == 'quick' else 60000
-    n_crash = 60 if tier == 'quick' else 3000
+    n_lists = 5000 if tier == 'quick' else 60000
+    n_crash = 150 if tier == 'quick' else 3000
     out = []
     for i in range(n_lists // BATCH):
         out.append({'kind': 'lists', 'seed': seed, 'i': i, 'n': BATCH})
